@@ -85,7 +85,7 @@ def observe_load(case: Dict[str, Any], prop: str) -> Dict[str, Any]:
 
 
 def load_cfg(rng: random.Random, tier: str, prop: str) -> gen.GenCfg:
-    base = rng.choice([0, 7, 1000, 10 ** 6, 1_700_000_000_000_000])
+    base = rng.choice([0, 7, 100, 32700, 1000, 10 ** 6, 1_700_000_000_000_000])
     if prop == "C01":
         frac = rng.choice([1, 8, 8, 4]) if base < 10 ** 12 else rng.choice([1, 4, 2])
     else:
@@ -103,6 +103,7 @@ def load_cfg(rng: random.Random, tier: str, prop: str) -> gen.GenCfg:
         unlinked_head=rng.choice([0, 0, 1, 2]),
         bwd_thread=rng.random() < 0.3,
         adv=rng.choice([(0, 0, 1, 1, 2, 3), (0, 1, 2, 5), (1, 2, 3)]),
+        extras=rng.random() < 0.7,
     )
 
 
@@ -113,4 +114,16 @@ def gen_load_case(rng: random.Random, tier: str, prop: str) -> Dict[str, Any]:
     ranks = gen.gen_trace_set(rng, cfg)
     for r in ranks:   # mixed formats inside one trace set
         r.fmt = rng.choice(["json", "json.gz"])
+    if cfg.frac == 1 and rng.random() < (0.15 if cfg.extras else 0.5):
+        # integer-width edges: put the latest start exactly at the top of int8 / int16 / int32
+        target = rng.choice([127, 32767, 2 ** 31 - 1])
+        top = max(e["ts"] for r in ranks for e in r.events if "ts" in e)
+        lo = min(e["ts"] for r in ranks for e in r.events if "ts" in e)
+        delta = target - top
+        if lo + delta >= 0:
+            for r in ranks:
+                for e in r.events:
+                    if "ts" in e:
+                        e["ts"] += delta
+                r.base += delta
     return {"ranks": [r.__dict__ for r in ranks], "u": cfg.frac, "incl": rng.random() < 0.5}
